@@ -8,6 +8,7 @@ import (
 	"slices"
 	"strings"
 	"sync"
+	"sync/atomic"
 	"time"
 
 	"github.com/gordian-engine/gordian/gexchange"
@@ -42,6 +43,13 @@ type Connection struct {
 
 	setConsensusHandlerRequests chan setConsensusHandlerRequest
 
+	// The handler consulted by the consensus topic validator.
+	// There is exactly one validator registered for the whole life of the connection,
+	// and it loads the current handler from here,
+	// so that changing the handler never leaves the topic without a validator
+	// (libp2p accepts and forwards every message on a topic that has no validator).
+	consensusHandler atomic.Pointer[tmconsensus.ConsensusHandler]
+
 	wg sync.WaitGroup
 
 	disconnectOnce sync.Once
@@ -51,36 +59,12 @@ type Connection struct {
 // NewConnection returns a new Connection based on
 // a host that has already joined a network.
 func NewConnection(ctx context.Context, log *slog.Logger, h *Host, codec tmcodec.MarshalCodec) (*Connection, error) {
-	consensusTopic, err := h.PubSub().Join(topicConsensus)
-	if err != nil {
-		return nil, err
-	}
-
-	consensusSub, err := consensusTopic.Subscribe()
-	if err != nil {
-		return nil, err
-	}
-
-	dhtPeer, err := dht.New(
-		ctx,
-		h.Libp2pHost(),
-
-		dht.ProtocolPrefix("/gordian"), // TODO: maybe this should not be hardcoded.
-	)
-	if err != nil {
-		return nil, fmt.Errorf("failed to create DHT peer: %w", err)
-	}
-
 	c := &Connection{
 		log: log,
 
 		codec: codec,
 
-		h:       h,
-		dhtPeer: dhtPeer,
-
-		consensusTopic: consensusTopic,
-		consensusSub:   consensusSub,
+		h: h,
 
 		outgoingProposals: make(chan tmconsensus.ProposedHeader, 1),
 
@@ -91,6 +75,39 @@ func NewConnection(ctx context.Context, log *slog.Logger, h *Host, codec tmcodec
 
 		disconnected: make(chan struct{}),
 	}
+
+	// The validator must be in place before the topic is joined,
+	// otherwise messages arriving before it is registered are forwarded unchecked.
+	if err := h.PubSub().RegisterTopicValidator(topicConsensus, c.validateConsensusMessage); err != nil {
+		return nil, fmt.Errorf("failed to register consensus topic validator: %w", err)
+	}
+
+	consensusTopic, err := h.PubSub().Join(topicConsensus)
+	if err != nil {
+		_ = h.PubSub().UnregisterTopicValidator(topicConsensus)
+		return nil, err
+	}
+
+	consensusSub, err := consensusTopic.Subscribe()
+	if err != nil {
+		_ = h.PubSub().UnregisterTopicValidator(topicConsensus)
+		return nil, err
+	}
+
+	dhtPeer, err := dht.New(
+		ctx,
+		h.Libp2pHost(),
+
+		dht.ProtocolPrefix("/gordian"), // TODO: maybe this should not be hardcoded.
+	)
+	if err != nil {
+		_ = h.PubSub().UnregisterTopicValidator(topicConsensus)
+		return nil, fmt.Errorf("failed to create DHT peer: %w", err)
+	}
+
+	c.dhtPeer = dhtPeer
+	c.consensusTopic = consensusTopic
+	c.consensusSub = consensusSub
 
 	// Ensure that the subscriptions are ready,
 	// as their setup happens in the background.
@@ -105,10 +122,6 @@ func NewConnection(ctx context.Context, log *slog.Logger, h *Host, codec tmcodec
 
 func (c *Connection) background(ctx context.Context) {
 	defer c.wg.Done()
-
-	if err := c.h.PubSub().RegisterTopicValidator(topicConsensus, ignoreMessage); err != nil {
-		c.log.Warn("Failed to initialize consensus topic validator", "err", err)
-	}
 
 	for {
 		select {
@@ -175,34 +188,12 @@ func (c *Connection) background(ctx context.Context) {
 			}
 
 		case req := <-c.setConsensusHandlerRequests:
-			// There is always a topic validator, so unregister the previous one.
-			if err := c.h.PubSub().UnregisterTopicValidator(topicConsensus); err != nil {
-				c.log.Warn("Failed to unregister previous topic validator for consensus messages", "err", err)
-			}
-
-			// NOTE: there is a potential race right here,
-			// where we temporarily have no topic validator set,
-			// between removing and replacing it.
-			//
-			// Unfortunately it doesn't look like there is a way to atomically swap the validator,
-			// nor is there an obvious way to leave the topic and
-			// instantaneously join it while setting a validator.
-			//
-			// Perhaps the alternative is to have a fixed method as the topic validator,
-			// and use sync/atomic to swap the handler.
-
-			// Always reassign a topic validator.
+			// The topic validator stays registered; only the handler it consults changes.
 			if req.Handler == nil {
-				if err := c.h.PubSub().RegisterTopicValidator(topicConsensus, ignoreMessage); err != nil {
-					c.log.Warn("Failed to register consensus topic validator when clearing handler", "err", err)
-				}
+				c.consensusHandler.Store(nil)
 			} else {
-				if err := c.h.PubSub().RegisterTopicValidator(
-					topicConsensus,
-					c.libp2pConsensusMessageValidator(req.Handler),
-				); err != nil {
-					c.log.Warn("Failed to register topic validator for consensus messages", "err", err)
-				}
+				h := req.Handler
+				c.consensusHandler.Store(&h)
 			}
 
 			close(req.Ready)
@@ -210,10 +201,17 @@ func (c *Connection) background(ctx context.Context) {
 	}
 }
 
-// ignoreMessage is a pubsub validator that ignores all incoming messages.
-// This is useful as a default strategy before (*Connection).SetConsensusHandler is called.
-func ignoreMessage(context.Context, peer.ID, *pubsub.Message) pubsub.ValidationResult {
-	return pubsub.ValidationIgnore
+// validateConsensusMessage is the one topic validator of the connection.
+// While no handler is set, every message is ignored;
+// otherwise the message is validated against the current handler.
+func (c *Connection) validateConsensusMessage(
+	ctx context.Context, id peer.ID, msg *pubsub.Message,
+) pubsub.ValidationResult {
+	h := c.consensusHandler.Load()
+	if h == nil {
+		return pubsub.ValidationIgnore
+	}
+	return c.libp2pConsensusMessageValidator(*h)(ctx, id, msg)
 }
 
 // libp2pConsensusMessageValidator returns a pubsub validator for the consensus message topic.
